@@ -93,7 +93,7 @@ def judge(case):
     b0 = mk_basis(shells)
     G = np.array(case["G"], dtype=float)
     base = {}
-    sc0 = quant.Scales(b0, env)
+    sc0 = quant.Scales(b0, env, shells=shells)
     for label, new_shells, sign in rewrites(case):
         b1 = mk_basis(new_shells)
         D = np.diag(sign)
